@@ -404,3 +404,312 @@ def tpo_order(rep, ex: Explorer):
                 ok = bool(calls) and all(len(c.args) == 1 and isinstance(c.args[0], ast.Name) and c.args[0].id == num for c in calls) and not start
                 det = f"enumerate start={'default 0' if not start else ast.unparse(start[0])}; rank_function({ast.unparse(calls[0].args[0]) if calls else '?'})"
     rep.check(ok, "TPO.order", site, "layer numbering", "the rank of a layer is rank_function(layer number), layers numbered from 0 in order", extracted=det, required="rank_function(i) for i, layer in enumerate(tpo)", function=site)
+
+
+# ----------------------------------------------------------------------------------------------
+# C16: System Z ranking object
+# ----------------------------------------------------------------------------------------------
+HEAD = ("sym", "H")
+W = ("obj", "world")
+
+
+def zrank_recursion(rep, ex: Explorer, cls: str):
+    """ZRANK.recursion on <cls>._rec_z_rank and z_part2ocf: start at len(P)-1 with the world's literals; layer k adds
+    ∀c∈P[k]: ¬falsification(c) persistently; SAT ⇒ (k=0 ? 0 : Rec(k-1)); UNSAT ⇒ k+1."""
+    qual = f"{cls}._rec_z_rank"
+    site = fn_label(ex.prog, qual)
+
+    def setup(I):
+        s = _obj(I, cls, lambda I: {"_z_partition": P_value("cond")})
+        solver = I.alloc(HSolver("pysmt", frames=[[HEAD]]))
+        return [s, solver, LinV(K)], {}
+
+    paths = ex.run(qual, setup, summaries=_summ(), key=f"zrec-{cls}")
+    layer = each_item(layer_fam(K), not_falsified)
+    base = canon_items([HEAD, layer])
+    n = 0
+    for p in paths:
+        if p.outcome[0] != "return":
+            continue
+        qs = [ev for ev, Q in iter_events(p.events) if ev.kind == "query" and not Q]
+        if len(qs) != 1:
+            rep.violation("ZRANK.recursion", site, "test", "one satisfiability test per layer", extracted=f"{len(qs)}", required="1", function=site)
+            continue
+        q = qs[0]
+        rep.check(canon_items(flat(q.frames)) == base, "ZRANK.recursion", f"{site}:{q.node.lineno}", "layer test scope", "the world is tested against the non-falsification of layers ≥ k",
+                  extracted=show_items(flat(q.frames)), required=show_items([HEAD, layer]), function=site)
+        sat = decided(p, ("sat", q.qid))
+        kfacts = [(k, v) for k, v in p.decisions if k[0] == "cmp" and isinstance(k[2], tuple) and k[2][:1] == ("lin",) and all(t == "k" for t, _ in k[2][1][0])]
+        rv = p.outcome[1]
+        recs = [ev for ev, Q in iter_events(p.events) if ev.kind == "recurse"]
+        for kv in range(0, 3):
+            okk = True
+            for key, val in kfacts:
+                lin = key[2][1]
+                x = sum(c * kv for t, c in lin[0]) + lin[1]
+                if ((x == 0) if key[1] == "==" else (x < 0)) != val:
+                    okk = False
+            if not okk:
+                continue
+            n += 1
+            if sat is False:
+                want = "k+1"
+                got = "k+1" if isinstance(rv, LinV) and rv.lin == F.lin_add(K, F.lin_const(1)) else repr(rv)
+            elif kv == 0:
+                want = "0"
+                got = "0" if (isinstance(rv, Const) and rv.value == 0) or (isinstance(rv, LinV) and rv.lin == F.lin_const(0)) else repr(rv)
+            else:
+                want = "Rec(k-1)"
+                ok_rec = isinstance(rv, Sym) and rv.label[:1] == ("rec",) and len(recs) == 1 and any(isinstance(a, LinV) and a.lin == F.lin_add(K, F.lin_const(-1)) for a in recs[0].args)
+                got = "Rec(k-1)" if ok_rec else repr(rv)
+                if ok_rec:
+                    ss = [s for s in recs[0].snap if s[0] == "solver"]
+                    ok_s = len(ss) == 1 and canon_items(flat(ss[0][3])) == base
+                    rep.check(ok_s, "ZRANK.recursion", f"{site}:{recs[0].node.lineno}", "scope at recursion", "the layer constraints persist into the next lower layer (same solver)",
+                              extracted=show_items(flat(ss[0][3])) if ss else "no solver", required=show_items([HEAD, layer]), function=site)
+            rep.check(got == want, "ZRANK.recursion", site, f"sat={sat} k{'=0' if kv == 0 else '>0'}", f"rank outcome {got}", extracted=got, required=want, function=site)
+    rep.floor(f"ZRANK.recursion rows of {cls.rsplit('.', 1)[1]}", n, 3)
+    # start
+    qual2 = f"{cls}.z_part2ocf"
+    site2 = fn_label(ex.prog, qual2)
+
+    def setup2(I):
+        s = _obj(I, cls, lambda I: {"_z_partition": P_value("cond")})
+        return [s, ElemV(W, "key")], {}
+
+    from ..harness import reccall_summary
+
+    summ = _summ()
+    for c in (PO, ZP):
+        summ[f"{c}._rec_z_rank"] = reccall_summary
+    paths = ex.run(qual2, setup2, summaries=summ, key=f"zstart-{cls}")
+    m = 0
+    for p in paths:
+        if p.outcome[0] != "return":
+            continue
+        rcs = [ev for ev, Q in iter_events(p.events) if ev.kind == "reccall"]
+        if not rcs:
+            continue
+        m += 1
+        rc = rcs[0]
+        idx = [a.lin for a in rc.args if isinstance(a, LinV)]
+        rep.check(bool(idx) and idx[0] == LAST, "ZRANK.recursion", f"{site2}:{rc.node.lineno}", "start index", "the rank recursion starts at the highest layer", extracted=F.show_lin(idx[0]) if idx else "?", required="len(P)-1", function=site2)
+        ss = [s for s in rc.snap if s[0] == "solver"]
+        ok = len(ss) == 1 and canon_items(flat(ss[0][3])) == canon_items(world_items(W))
+        rep.check(ok, "ZRANK.recursion", f"{site2}:{rc.node.lineno}", "start scope", "the recursion starts from exactly the world's literals", extracted=show_items(flat(ss[0][3])) if ss else "no solver", required=show_items(world_items(W)), function=site2)
+        news = [ev for ev, Q in iter_events(p.events) if ev.kind == "solver.new"]
+        writes = [ev for ev, Q in iter_events(p.events) if ev.kind in ("attr.set", "dict.set", "list.append") and not Q]
+        rep.check(len(news) == 1 and not writes, "ZRANK.pure", site2, "effects", "ranking a world uses a solver of its own and writes nothing", extracted=f"{len(news)} solver(s) created, {len(writes)} write(s)", required="1, 0", function=site2)
+    rep.floor(f"z_part2ocf paths of {cls.rsplit('.', 1)[1]}", m, 1)
+
+
+def rank_cache(rep, ex: Explorer, cls: str, compute: str, rule="ZRANK.cache"):
+    """<rule>: rank_world computes iff forced or unset, stores under the world's own entry and returns the stored
+    value; nothing else is written (ZRANK.pure: order of lazy computation cannot matter)."""
+    qual = f"{cls}.rank_world"
+    site = fn_label(ex.prog, qual)
+
+    def comp(I, fi, args, kwargs, node):
+        I.log("compute", node, args=tuple(args[1:]))
+        return Sym(("computed", desc(args[1])), "int")
+
+    def setup(I):
+        s = _obj(I, cls, lambda I: {"_z_partition": P_value("cond"), "_impacts": Sym("impacts")})
+        return [s, ElemV(W, "key")], {"force_calculation": Sym("force", "bool")}
+
+    summ = dict(wrappers.SUMMARIES)
+    summ[f"{cls}.{compute}"] = comp
+    paths = ex.run(qual, setup, summaries=summ, key=f"cache-{cls}")
+    n = 0
+    stored = ("storedrank", W)
+    for p in paths:
+        force = decided(p, ("truthy", "force"))
+        unset = decided(p, ("isnone", stored))
+        comps = [ev for ev, Q in iter_events(p.events) if ev.kind == "compute"]
+        sets = [ev for ev, Q in iter_events(p.events) if ev.kind == "dict.set"]
+        other = [ev for ev, Q in iter_events(p.events) if ev.kind in ("attr.set", "list.append")]
+        should = (force is True) or (unset is True)
+        if force is None and unset is None:
+            raise AnalysisError(f"{site}: neither the force flag nor the cache entry is consulted")
+        n += 1
+        slot = f"force={force} unset={unset}"
+        rep.check((len(comps) == 1) == should, rule, site, slot + " compute", "the rank is computed iff forced or not yet known", extracted=f"{len(comps)} computation(s)", required="1" if should else "0", function=site)
+        if should and comps:
+            ok = len(sets) == 1 and isinstance(sets[0].key, ElemV) and sets[0].key.var == W and isinstance(sets[0].value, Sym) and sets[0].value.label == ("computed", ("elem", W, "key"))
+            rep.check(ok, rule, site, slot + " store", "the computed rank is stored under the world's own entry", extracted=repr([(e.key, e.value) for e in sets])[:200], required="ranks[world] = computed", function=site)
+            okw = isinstance(comps[0].args[0], ElemV) and comps[0].args[0].var == W
+            rep.check(okw, rule, site, slot + " argument", "the rank is computed for the requested world", extracted=repr(comps[0].args), required="world", function=site)
+        else:
+            rep.check(not sets, rule, site, slot + " store", "a known rank is not overwritten", extracted=f"{len(sets)} store(s)", required="0", function=site)
+        rep.check(not other, "ZRANK.pure", site, slot + " other effects", "nothing but the world's own cache entry is written", extracted=f"{len(other)}", required="0", function=site)
+        if p.outcome[0] == "return":
+            rv = p.outcome[1]
+            want = ("computed", ("elem", W, "key")) if should else stored
+            ok = isinstance(rv, Sym) and rv.label == want
+            rep.check(ok, rule, site, slot + " result", "the returned rank is the stored one", extracted=repr(rv), required=F.show_desc(want), function=site)
+    rep.floor(f"{rule} paths of {cls.rsplit('.', 1)[1]}", n, 2)
+
+
+def zrank_init(rep, ex: Explorer, cls=ZP):
+    """FACT.shape, the partition mode, ZRANK.refuse on SystemZPreOCF.__init__ (and the sibling builder
+    build_fact_conditionals)."""
+    qual = f"{cls}.__init__"
+    site = fn_label(ex.prog, qual)
+    FACTS = ("members", ("facts",))
+
+    def parse_formula(I, fi, args, kwargs, node):
+        I.log("parse_formula", node, arg=args[0])
+        return FormulaV(("opaque", ("parsed", desc(args[0]))), "pysmt")
+
+    def diag(I, fi, args, kwargs, node):
+        I.log("diagnostics", node, args=tuple(args), kwargs=dict(kwargs))
+        return Sym(("diag",))
+
+    summ = dict(wrappers.SUMMARIES)
+    summ["parser.Wrappers.parse_formula"] = parse_formula
+    summ["inference.consistency_diagnostics.consistency_diagnostics"] = diag
+    summ["inference.consistency_diagnostics.format_diagnostics_verbose"] = lambda I, fi, a, k, n: Sym(("fmt",), "str")
+    n_facts = n_plain = 0
+    for ext in (Const(None), Const(True), Const(False)):
+        for with_facts in (True, False):
+            def setup(I, ext=ext, with_facts=with_facts):
+                bb = make_belief_base(I)
+                s = I.alloc(HObj(cls, {}))
+                facts = ElemV(("facts",), "coll", "factentry") if with_facts else Const(None)
+                return [s, bb, ElemV(SIG, "coll", "str")], {"facts": facts, "extended": ext}
+
+            paths = ex.run(qual, setup, summaries=summ, key=f"zinit-{ext.value}-{with_facts}")
+            want_mode = ext.value if ext.value is not None else with_facts
+            for p in paths:
+                fe = decided(p, ("empty", ("facts",)))
+                if with_facts and fe is True:
+                    continue  # an empty fact list is the no-facts branch (covered by with_facts=False)
+                cons = [ev for ev, Q in iter_events(p.events) if ev.kind == "summary.consistency"]
+                if not cons:
+                    continue  # rejected input (unknown variables, wrong type): raised before any partition
+                c = cons[-1]
+                pf = decided(p, ("partfalse", ("part", c.pid)))
+                mode_ok = isinstance(c.weakly, Const) and bool(c.weakly.value) == bool(want_mode)
+                rep.check(mode_ok, "FACT.shape" if with_facts else "ZRANK.recursion", f"{site}:{c.node.lineno}", f"partition mode (extended={ext.value}, facts={with_facts})",
+                          "extended mode as requested; when unspecified: extended with facts, strict without", extracted=repr(c.weakly), required=str(bool(want_mode)), function=site)
+                ents, each = c.bbdesc[1], c.bbdesc[2]
+                base_each = [e for e in each if e[0] == KEYS_D]
+                fact_each = [e for e in each if e[0] != KEYS_D]
+                rep.check(len(base_each) == 1 and not ents, "FACT.shape" if with_facts else "ZRANK.recursion", f"{site}:{c.node.lineno}", "base kept", "the ranked base contains every conditional of the belief base",
+                          extracted=f"{len(base_each)} group(s), {len(ents)} literal entries", required="the base", function=site)
+                if with_facts:
+                    n_facts += 1
+                    okf = bool(fact_each)
+                    for e in fact_each:
+                        fam, g, keyd, cd = e
+                        shape = isinstance(cd, tuple) and cd[0] == "cond" and cd[2] == F.canon(F.FALSE)
+                        # antecedent ≡ ¬φ for φ the entry itself or its parse
+                        ante_ok = False
+                        if shape:
+                            leaves, tb = cd[1][1], cd[1][2]
+                            ante_ok = len(leaves) == 1 and leaves[0][0] == "opaque" and tb == (True, False)
+                        okf &= shape and ante_ok and fam == FACTS
+                    rep.check(okf, "FACT.shape", f"{site}:{c.node.lineno}", "fact conditionals", "a fact φ becomes the conditional (Bottom | ¬φ)",
+                              extracted="; ".join(str(e[3])[:120] for e in fact_each) or "none", required="A ≡ ¬φ, B ≡ ⊥ for every fact", function=site)
+                    # FRESH keys: start above the maximum key, +1 per fact, stored under the running value
+                    fresh = _fresh_counter(p, FACTS)
+                    rep.check(fresh is True, "FACT.shape", site, "fact keys", "fact conditionals are keyed max(base keys)+1, +2, ... (fresh keys)", extracted=str(fresh), required="fresh", function=site)
+                    # refusal with diagnostics
+                    saved = [ev for ev, Q in iter_events(p.events) if ev.kind == "dict.set" and isinstance(ev.key, Const) and ev.key.value == "consistency_diagnostics"]
+                    if pf is True:
+                        ok = p.outcome[0] == "raise" and p.outcome[1].cls == "ValueError" and bool(saved)
+                        rep.check(ok, "ZRANK.refuse", site, f"unsatisfiable combination (extended={ext.value})", "an inconsistent combination of base and facts is refused with an error after the diagnostics were saved",
+                                  extracted=f"{p.outcome[0]}{' ' + p.outcome[1].cls if p.outcome[0] == 'raise' else ''}, diagnostics saved={bool(saved)}", required="raise ValueError, diagnostics saved", function=site)
+                    elif pf is False:
+                        o = p.state.heap.get(1) if False else None
+                        setp = [ev for ev, Q in iter_events(p.events) if ev.kind == "attr.set" and ev.attr == "_z_partition"]
+                        ok = p.outcome[0] == "return" and len(setp) == 1 and isinstance(setp[0].value, ElemV) and setp[0].value.var == ("part", c.pid)
+                        rep.check(ok, "FACT.shape", site, f"partition used (extended={ext.value})", "the ranking uses the partition of the augmented base", extracted=repr(setp[0].value) if setp else "none", required="partition of base ∪ facts", function=site)
+                else:
+                    n_plain += 1
+                    setp = [ev for ev, Q in iter_events(p.events) if ev.kind == "attr.set" and ev.attr == "_z_partition"]
+                    ok = len(setp) == 1 and isinstance(setp[0].value, ElemV) and setp[0].value.var == ("part", c.pid)
+                    rep.check(ok, "ZRANK.recursion", site, f"partition used (extended={ext.value})", "the ranking uses the partition of the base", extracted=repr(setp[0].value) if setp else "none", required="partition of the base", function=site)
+    rep.floor("SystemZPreOCF construction paths with facts", n_facts, 3)
+    rep.floor("SystemZPreOCF construction paths without facts", n_plain, 3)
+
+
+def _fresh_counter(p, fam):
+    """Is the key of every entry stored in the loop over ``fam`` a counter that starts at max(keys)+1 (default 0) and
+    grows by one per element?"""
+    for ev, Q in iter_events(p.events):
+        if ev.kind == "loop.vars" and not Q and ev.fam == fam:
+            for (kind, name), (init, cs, newv) in ev.vars.items():
+                if kind != "var":
+                    continue
+                if isinstance(init, LinV) and len(init.lin[0]) == 1 and isinstance(init.lin[0][0][0], tuple) and init.lin[0][0][0][0] == "max":
+                    t = init.lin[0][0][0]
+                    over_keys = "('keys', 'D')" in repr(t)
+                    dflt = [x for x in t if isinstance(x, tuple) and x and x[0] == "default"]
+                    start_ok = over_keys and init.lin[1] >= 1 and init.lin[0][0][1] == 1 and (not dflt or dflt[0][1] == ("c", 0))
+                    carried = ("carried", ev.loop, name)
+                    step_ok = all(isinstance(v, LinV) and v.lin == F.lin_add(F.lin_term(carried), F.lin_const(1)) for g, v in cs) and bool(cs)
+                    # the key used for the store: the carried value
+                    key_ok = False
+                    for ev2, Q2 in iter_events(p.events):
+                        if ev2.kind == "dict.set" and Q2 and Q2[-1][0].id == ev.loop and isinstance(ev2.key, Sym) and ev2.key.label == carried:
+                            key_ok = True
+                    if start_ok and step_ok and key_ok:
+                        return True
+                    return f"start ok={start_ok}, step ok={step_ok}, key ok={key_ok}"
+    return "no running key found"
+
+
+def fact_builder_sibling(rep, ex: Explorer):
+    """FACT.shape on the sibling builder consistency_diagnostics.build_fact_conditionals / augment_belief_base_with_facts."""
+    qual = "inference.consistency_diagnostics.build_fact_conditionals"
+    site = fn_label(ex.prog, qual)
+    FACTS = ("members", ("facts",))
+
+    def parse_fact(I, fi, args, kwargs, node):
+        return FormulaV(("opaque", ("parsed", desc(args[0]))), "pysmt")
+
+    summ = dict(wrappers.SUMMARIES)
+    summ["inference.consistency_diagnostics._parse_fact"] = parse_fact
+    summ["inference.consistency_diagnostics._validate_fact_vars"] = lambda I, fi, a, k, n: Const(None)
+
+    def setup(I):
+        return [ElemV(SIG, "coll", "str"), ElemV(("facts",), "coll", "factentry")], {"start_index": LinV(F.lin_term("start"))}
+
+    paths = ex.run(qual, setup, summaries=summ, key="factbuilder")
+    n = 0
+    for p in paths:
+        if p.outcome[0] != "return":
+            continue
+        rv = p.outcome[1]
+        d = p.state.heap.get(rv.oid) if isinstance(rv, Ref) else None
+        ok = False
+        det = "?"
+        if isinstance(d, HDict) and d.each:
+            ok = True
+            for e in d.each:
+                _, b, fam, g, kt, vt = e
+                from ..harness import cond_parts_state
+
+                parts = cond_parts_state(p.state, vt)
+                shape = parts is not None and F.canon(parts[1]) == F.canon(F.FALSE) and parts[0][0] == "not" and parts[0][1][0] == "opaque"
+                ok &= shape and fam == FACTS
+                det = f"(B:{F.show(parts[1])} | A:{F.show(parts[0])})" if parts else repr(vt)
+        n += 1
+        rep.check(ok, "FACT.shape", site, "fact conditionals", "a fact φ becomes the conditional (Bottom | ¬φ)", extracted=det, required="A ≡ ¬φ, B ≡ ⊥", function=site)
+        # running key starts at start_index+1
+        okk = False
+        for ev, Q in iter_events(p.events):
+            if ev.kind == "loop.vars" and not Q and ev.fam == FACTS:
+                for (kind, name), (init, cs, newv) in ev.vars.items():
+                    if kind == "var" and isinstance(init, LinV) and init.lin == F.lin_add(F.lin_term("start"), F.lin_const(1)):
+                        carried = ("carried", ev.loop, name)
+                        okk = all(isinstance(v, LinV) and v.lin == F.lin_add(F.lin_term(carried), F.lin_const(1)) for g, v in cs)
+        rep.check(okk, "FACT.shape", site, "fact keys", "keys start_index+1, +2, ...", extracted=str(okk), required="running key from start_index+1", function=site)
+    rep.floor("build_fact_conditionals paths", n, 1)
+    # augment: start index = max(existing keys, default 0)
+    fi = ex.prog.function("inference.consistency_diagnostics.augment_belief_base_with_facts")
+    src = ast.unparse(fi.node)
+    ok = any(isinstance(nd, ast.Call) and isinstance(nd.func, ast.Name) and nd.func.id == "max" and any(k.arg == "default" and isinstance(k.value, ast.Constant) and k.value.value == 0 for k in nd.keywords)
+             and "keys" in ast.unparse(nd) for nd in ast.walk(fi.node))
+    rep.check(ok, "FACT.shape", fn_label(ex.prog, fi.qualname), "start index", "facts are keyed above the highest key of the base", extracted="max(keys, default=0)" if ok else "other", required="max(existing keys, default=0)", function=fn_label(ex.prog, fi.qualname))
